@@ -368,6 +368,24 @@ def check_repr_order(ctx, m, c, rfn):
                 continue
             since += ch
             i += 1
+        # optional tails such as `', dom={}, cod={}'.format(repr(self.dom), repr(self.cod))` (possibly under a conditional): keyword slots only
+        for sub in [x for a_ in e.args for x in ast.walk(a_) if isinstance(x, ast.Call) and isinstance(x.func, ast.Attribute) and x.func.attr == "format"
+                    and isinstance(x.func.value, ast.Constant) and isinstance(x.func.value.value, str)]:
+            parts = sub.func.value.value.split("{}")
+            for j, a in enumerate(sub.args[:len(parts) - 1]):
+                kwm = re.search(r"([A-Za-z_][A-Za-z_0-9]*)=$", parts[j])
+                x = a.args[0] if isinstance(a, ast.Call) and ast.unparse(a.func) in ("repr", "str") and len(a.args) == 1 else a
+                if not kwm or not (isinstance(x, ast.Attribute) and isinstance(x.value, ast.Name) and x.value.id == self_) or in_init:
+                    continue
+                src = attrs.get(canon_attr(m, c, x.attr))
+                if not (isinstance(src, tuple) and src and src[0] in ("param", "ite")):
+                    continue
+                names_ = {src[1]} if src[0] == "param" else {t[1] for t in (src[2], src[3]) if isinstance(t, tuple) and t and t[0] == "param"}
+                if not names_:
+                    continue
+                n += 1
+                ctx.ob("R03.3", "%s.__repr__:argument[%s]" % (c.q, kwm.group(1)), kwm.group(1) in names_, found="self.%s (the parameter `%s` of __init__) is printed as `%s=`" % (x.attr, "/".join(sorted(names_)), kwm.group(1)),
+                       required="every stored parameter is printed in its own place, so that evaluating the repr rebuilds the value", mod=c.mod, node=r, sig="repr-order:self.%s" % x.attr)
         for j, a in enumerate(e.args):
             want = slots.get(j)
             if want is None:
